@@ -1289,12 +1289,16 @@ META_DOC = '2000-01-01 open Assets:A\n  aa:{}\n  bb: "keep"\n'
 # current content of the slot: every raw kind of `meta_value`, and absent
 META_CURRENT = [('absent', ''), ('string', ' "s"'), ('date', ' 2001-02-03'), ('number', ' 1 + 2'), ('number', ' -4'),
                 ('bool', ' TRUE'), ('account', ' Assets:B'), ('currency', ' USD'), ('tag', ' #tag'), ('null', ' NULL'),
-                ('amount', ' 3 USD')]
+                ('amount', ' 3 USD'),
+                # values that compare equal across types in Python (True == Decimal(1), False == Decimal(0)): an
+                # assignment of the OTHER type must still change type and text
+                ('number', ' 1'), ('number', ' 0'), ('number', ' (2 - 1)'), ('bool', ' FALSE')]
 META_RAW_TEXT = {'string': '"r"', 'date': '1999-12-31', 'number': '5 * 6', 'bool': 'FALSE', 'account': 'Assets:R',
                  'currency': 'EUR', 'tag': '#rr', 'null': 'NULL', 'amount': '-7 CAD'}
 # new value: [kind, payload]
 META_NEW = ([['none', None], ['str', 'x"y'], ['str', ''], ['date', [2024, 2, 29]], ['datetime', [2001, 2, 3, 4, 5]],
-             ['dec', '-3.5'], ['dec', '4'], ['dec', '1E+3'], ['bool', True], ['bool', False], ['same', None]]
+             ['dec', '-3.5'], ['dec', '4'], ['dec', '1E+3'], ['bool', True], ['bool', False], ['same', None],
+             ['dec', '1'], ['dec', '0'], ['dec', '1.0']]
             + [['raw', k] for k in META_RAW_TEXT] + [['attached', k] for k in ('string', 'number', 'account', 'amount')])
 _MV = {}
 
